@@ -16,7 +16,7 @@ def writerDefaults : List (String × String) := [("reference_index", "0"), ("seg
 def readerDefaults : List (String × String) := []
 /-- the refusing guards of `write_alignment_to_cigar` in source order: (kind/operator, constant, exception) -/
 def writerGuards : List (String × String × String) := [("mask-and", "", "ValueError"), ("diff-not", "1", "ValueError"), ("GtE", "var", "ValueError"), ("Lt", "0", "ValueError"), ("mask-and-not", "", "ValueError")]
-def readerRaises : List String := ["ValueError", "ValueError", "ValueError"]
+def readerRaises : List String := ["ValueError"]
 /-- `start_clip = seg_trace[startClipIndex]`, `end_clip = len(segment) - seg_trace[endClipIndex] - endClipMinus` -/
 def startClipIndex : Int := 0
 def endClipIndex : Int := -1
@@ -30,5 +30,5 @@ def printerCountFirst : Bool := true
 def readerInit : List (String × String) := [("refCursor", "position"), ("segCursor", "0"), ("row", "0")]
 /-- literals, guards, defaults, step order and exception classes read from alignment.py, fasta/convert.py (ast) and
 multiple.pyx (text) -/
-def facts : List (String × String) := [("gapped.gapChar", "-"), ("gapped.test", "gap iff index == -1"), ("trace_from_strings.guard", "Lt 2 ValueError"), ("trace_from_strings.gapTest", "Eq '-'"), ("trace_from_strings.increment", "1"), ("get_codes.dtype", "np.int64"), ("get_codes.gapFill", "np.int64(-1)"), ("get_symbols.alphabet", "alignment.sequences[k].get_alphabet()|per-row"), ("get_sequence_identity.defaults", "mode='not_terminal'"), ("get_sequence_identity.modes", "'all','not_terminal','shortest'"), ("get_sequence_identity.guards", "stop LtE start ValueError"), ("get_sequence_identity.raises", "ValueError,ValueError"), ("get_pairwise_sequence_identity.defaults", "mode='not_terminal'"), ("get_pairwise_sequence_identity.modes", "'all','not_terminal','shortest'"), ("get_pairwise_sequence_identity.guards", "stop LtE start ValueError"), ("get_pairwise_sequence_identity.raises", "ValueError,ValueError"), ("get_sequence_identity.match", "one symbol in the column and not -1"), ("score.defaults", "gap_penalty=-10;terminal_penalty=True"), ("score.lookup", "matrix[earlier,later]"), ("score.pairs", "every unordered pair once (earlier < later)"), ("score.raises", "TypeError"), ("score.gapOrder", "ext,open"), ("find_terminal_gaps.start", "max(pos[0] if len Gt 0 else ncols)+0"), ("find_terminal_gaps.stop", "min(pos[-1] if len Gt 0 else -1)+1"), ("remove_terminal_gaps.guard", "stop Lt start ValueError"), ("remove_gaps.mask", "columns without any -1"), ("getitem.raises", "IndexError"), ("getitem.integerTest", "numbers.Integral in the 1-D and the 2-D branch"), ("get_alignment.defaults", "additional_gap_chars=('_',);seq_type=None"), ("get_alignment.replace", "'-','';char,'-'"), ("get_alignment.loops", "outer=additional_gap_chars;inner=strings"), ("set_alignment.guard", "len(rows) NotEq len(seq_names) ValueError"), ("align_multiple.defaults", "gap_penalty=-10;terminal_penalty=True;distances=None;guide_tree=None"), ("align_multiple.reorder", "np.argsort(order)"), ("align_multiple.pick", "[aligned_seqs[pos] for pos in new_order]"), ("align_multiple.traceReorder", "trace[:,new_order]"), ("align_multiple.gapCode", "new_alphabet.encode(gap_symbol)"), ("align_multiple.gapTest", "== -1"), ("align_multiple.strip", "code[code!=gap_symbol_code]"), ("progressive.leaf", "[sequences[tree_node.index].copy()]"), ("progressive.traceColumns", "aligned_seqs1:0;aligned_seqs2:1"), ("progressive.concat", "np.append(incides1,incides2);aligned_seqs1+aligned_seqs2"), ("progressive.children", "child1,child2=tree_node.children"), ("replace_gaps.branches", "== -1 gap_symbol_code seq_code[index]"), ("distance.scoreMax", "(scores_v[i,i]+scores_v[j,j])/2.0"), ("distance.guard", "scores_v[i,j] < score_rand ValueError"), ("distance.formula", "-log((scores_v[i,j]-score_rand)/(score_max-score_rand))"), ("distance.randDivisor", "alignments[i,j].trace.shape[0]"), ("distance.gapTerms", "gap_open_count*gap_open;gap_ext_count*gap_ext")]
+def facts : List (String × String) := [("gapped.gapChar", "-"), ("gapped.test", "gap iff index == -1"), ("trace_from_strings.guard", "Lt 2 ValueError"), ("trace_from_strings.gapTest", "Eq '-'"), ("trace_from_strings.increment", "1"), ("get_codes.dtype", "np.int64"), ("get_codes.gapFill", "np.int64(-1)"), ("get_symbols.alphabet", "alignment.sequences[k].get_alphabet()|per-row"), ("get_sequence_identity.defaults", "mode='not_terminal'"), ("get_sequence_identity.modes", "'all','not_terminal','shortest'"), ("get_sequence_identity.guards", "stop LtE start ValueError"), ("get_sequence_identity.raises", "ValueError"), ("get_pairwise_sequence_identity.defaults", "mode='not_terminal'"), ("get_pairwise_sequence_identity.modes", "'all','not_terminal','shortest'"), ("get_pairwise_sequence_identity.guards", "stop LtE start ValueError"), ("get_pairwise_sequence_identity.raises", "ValueError"), ("get_sequence_identity.match", "one symbol in the column and not -1"), ("score.defaults", "gap_penalty=-10;terminal_penalty=True"), ("score.lookup", "matrix[earlier,later]"), ("score.pairs", "every unordered pair once (earlier < later)"), ("score.raises", "TypeError"), ("score.gapOrder", "ext,open"), ("find_terminal_gaps.start", "max(pos[0] if len Gt 0 else ncols)+0"), ("find_terminal_gaps.stop", "min(pos[-1] if len Gt 0 else -1)+1"), ("remove_terminal_gaps.guard", "stop Lt start ValueError"), ("remove_gaps.mask", "columns without any -1"), ("getitem.raises", "IndexError"), ("getitem.integerTest", "numbers.Integral in the 1-D and the 2-D branch"), ("get_alignment.defaults", "additional_gap_chars=('_',);seq_type=None"), ("get_alignment.replace", "'-','';char,'-'"), ("get_alignment.loops", "every additional gap character is replaced in the current text"), ("set_alignment.guard", "len(rows) NotEq len(seq_names) ValueError"), ("align_multiple.defaults", "gap_penalty=-10;terminal_penalty=True;distances=None;guide_tree=None"), ("align_multiple.reorder", "np.argsort(order)"), ("align_multiple.pick", "[aligned_seqs[pos] for pos in new_order]"), ("align_multiple.traceReorder", "trace[:,new_order]"), ("align_multiple.gapCode", "new_alphabet.encode(gap_symbol)"), ("align_multiple.gapTest", "== -1"), ("align_multiple.strip", "code[code!=gap_symbol_code]"), ("progressive.leaf", "[sequences[tree_node.index].copy()]"), ("progressive.traceColumns", "aligned_seqs1:0;aligned_seqs2:1"), ("progressive.concat", "np.append(incides1,incides2);aligned_seqs1+aligned_seqs2"), ("progressive.children", "child1,child2=tree_node.children"), ("replace_gaps.branches", "== -1 gap_symbol_code seq_code[index]"), ("distance.scoreMax", "(scores_v[i,i]+scores_v[j,j])/2.0"), ("distance.guard", "scores_v[i,j] < score_rand ValueError"), ("distance.formula", "-log((scores_v[i,j]-score_rand)/(score_max-score_rand))"), ("distance.randDivisor", "alignments[i,j].trace.shape[0]"), ("distance.gapTerms", "gap_open_count*gap_open;gap_ext_count*gap_ext")]
 end BiotiteModel.Gen.C11
